@@ -42,7 +42,10 @@ BadLists == {<<Bad[b]>> : b \in 1..Len(Bad)} \cup {<<Bad[b], Pool[1]>> : b \in 1
 
 Types == {"host", "srflx", "relay"}
 Ifaces == {"", "e0", "e1"}
-KeySeq == SetToSeq({[typ |-> t, ip |-> ip, iface |-> i] : t \in Types, ip \in Locals, i \in Ifaces})
+\* a lookup key names a local address; how the caller spells it (canonical text, or another text form of the same address:
+\* IPv4-mapped for IPv4, upper-case uncompressed for IPv6) is not part of the documented semantics - the expected outcome
+\* below does not look at form
+KeySeq == SetToSeq({[typ |-> t, ip |-> ip, iface |-> i, form |-> f] : t \in Types, ip \in Locals, i \in Ifaces, f \in {"canon", "alt"}})
 RelayAddr == "198.51.100.77"     \* what a relay candidate carries before rewriting (its related address is the lookup key)
 Outcome(rs, k) == LET res == Lookup(rs, k.typ, k.ip, k.iface) IN
                   [res |-> res, winner |-> Winner(rs, k.typ, k.ip, k.iface),
